@@ -239,6 +239,9 @@ class Interp:
         self.folder = ctx.folder
         self.summaries = summaries or {}
         self.overrides = overrides or {}  # ("module", "name") -> value
+        self._len_source = {}
+        self.ext_summaries = {}   # "urllib.parse.unquote" -> fn(interp, pos, kw, node)
+        self.hole_free_of = ""    # characters the symbolic holes are assumed not to contain
         self.trace = None
         self.choices = []
         self.pending = []
@@ -416,6 +419,21 @@ class Interp:
             if not broke:
                 self.exec_block(st.orelse, env)
             return
+        if isinstance(st, ast.While):
+            n_iter = 0
+            while self.decide(self.eval(st.test, env), st):
+                n_iter += 1
+                if n_iter > 64:
+                    raise Unsupported("while loop at line %s does not terminate within 64 abstract iterations" % st.lineno)
+                try:
+                    self.exec_block(st.body, env)
+                except BreakEx:
+                    break
+                except ContinueEx:
+                    continue
+            else:
+                self.exec_block(st.orelse, env)
+            return
         if isinstance(st, ast.Return):
             raise ReturnEx(self.eval(st.value, env) if st.value is not None else None)
         if isinstance(st, ast.Raise):
@@ -442,7 +460,14 @@ class Interp:
         if isinstance(st, (ast.Import, ast.ImportFrom)):
             for al in st.names:
                 local = al.asname or al.name.split(".")[0]
-                env[local] = ModVal((st.module + "." if isinstance(st, ast.ImportFrom) and st.module else "") + al.name)
+                full = (st.module + "." if isinstance(st, ast.ImportFrom) and st.module else "") + al.name
+                full = self.proj._canon_mod(full)
+                if full in self.proj.funcs:
+                    env[local] = FuncVal(self.proj.funcs[full])
+                elif full in self.proj.classes:
+                    env[local] = TypeVal(full)
+                else:
+                    env[local] = ModVal(full)
             return
         if isinstance(st, ast.FunctionDef):
             f = getattr(st, "_func", None)
@@ -589,7 +614,9 @@ class Interp:
             if isinstance(base, Sym) and base.kind == "Feature":
                 kind = "int" if node.attr in ("start", "end", "stop") else "str"
                 return Sym("%s.%s" % (base.name, node.attr), kind, True)
-            return BoundMethod(base, node.attr)
+            # a plain attribute read of an unknown object: an opaque value named after its path
+            v = Sym("%s.%s" % (base.name, node.attr), "any", None)
+            return v
         return BoundMethod(base, node.attr)
 
     def e_List(self, node, env):
@@ -647,6 +674,15 @@ class Interp:
         if isinstance(op, ast.Mult):
             if isinstance(a, (int, float, str, list)) and isinstance(b, (int, float)):
                 return a * b
+            # ["bin = ?"] * len(xs)  /  "?" * len(xs): one repetition per element of the collection
+            if isinstance(b, Sym) and b.name.startswith("len(") and isinstance(a, list) and len(a) == 1:
+                coll = self._len_source.get(b.name)
+                if coll is not None:
+                    return RepList(a[0], coll)
+            if isinstance(a, Sym) and a.name.startswith("len(") and isinstance(b, list) and len(b) == 1:
+                coll = self._len_source.get(a.name)
+                if coll is not None:
+                    return RepList(b[0], coll)
         if isinstance(op, ast.Pow) and isinstance(a, int) and isinstance(b, int) and b < 100:
             return a ** b
         if isinstance(op, ast.Mod) and is_strlike(a):
@@ -769,6 +805,28 @@ class Interp:
             if isinstance(res, ACond):
                 return res if isinstance(op, ast.In) else ACond("not", res, None, node)
             return res if isinstance(op, ast.In) else not res
+        # a character of a hole is assumed not to be one of the structural characters
+        for x, y in ((a, b), (b, a)):
+            if isinstance(x, Sym) and x.kind == "char" and isinstance(y, str) and len(y) == 1 and y in self.hole_free_of:
+                if isinstance(op, ast.Eq):
+                    return False
+                if isinstance(op, ast.NotEq):
+                    return True
+        # a length known to be at least `min`
+        if isinstance(a, Sym) and "min" in a.attrs and isinstance(b, int) and not isinstance(b, bool):
+            m = a.attrs["min"]
+            if isinstance(op, ast.Gt) and m > b:
+                return True
+            if isinstance(op, ast.GtE) and m >= b:
+                return True
+            if isinstance(op, ast.Eq) and m > b:
+                return False
+            if isinstance(op, ast.NotEq) and m > b:
+                return True
+            if isinstance(op, ast.Lt) and m >= b:
+                return False
+            if isinstance(op, ast.LtE) and m > b:
+                return False
         abstract = lambda v: isinstance(v, (Sym, AStr, Opaque, ACond))
         if abstract(a) or abstract(b):
             if isinstance(op, (ast.Eq, ast.NotEq)):
@@ -823,10 +881,32 @@ class Interp:
             hi = self.eval(node.slice.upper, env) if node.slice.upper else None
             if isinstance(base, (list, tuple, str)):
                 return base[lo:hi]
+            if isinstance(base, AStr) and lo in (None, 0, 1) and hi in (None, -1):
+                parts = list(base.parts)
+                if lo == 1:
+                    if not parts or not isinstance(parts[0], str):
+                        raise Unsupported("slice [1:] of a string starting with a hole")
+                    parts[0] = parts[0][1:]
+                if hi == -1:
+                    if not parts or not isinstance(parts[-1], str):
+                        raise Unsupported("slice [:-1] of a string ending with a hole")
+                    parts[-1] = parts[-1][:-1]
+                return AStr(parts).simplify()
             if isinstance(base, (Sym, Opaque)):
                 return Sym("%s[%s:%s]" % (base.name, lo, hi), "any", None)
             raise Unsupported("slice of %r" % (base,))
         key = self.eval(node.slice, env)
+        if isinstance(base, AStr) and isinstance(key, int):
+            if not base.parts:
+                raise RaiseEx("IndexError", "string index out of range", node)
+            edge = base.parts[0] if key == 0 else base.parts[-1] if key == -1 else None
+            if isinstance(edge, str):
+                return edge[key]
+            if edge is not None:
+                return Sym("%s[%d]" % (getattr(edge, "name", "rep"), key), "char", True)
+            raise Unsupported("index %d of an abstract string" % key)
+        if isinstance(base, Sym) and base.kind == "str" and isinstance(key, int):
+            return Sym("%s[%d]" % (base.name, key), "char", True)
         if isinstance(base, dict):
             if key not in base:
                 raise RaiseEx("KeyError", repr(key), node)
@@ -870,8 +950,32 @@ class Interp:
     e_GeneratorExp = e_ListComp
     e_SetComp = e_ListComp
 
+    def e_DictComp(self, node, env):
+        if len(node.generators) != 1:
+            raise Unsupported("nested dict comprehension")
+        g = node.generators[0]
+        it = self.eval(g.iter, env)
+        if not isinstance(it, (list, tuple, dict)):
+            raise Unsupported("dict comprehension over %r" % (it,))
+        out = {}
+        for x in (list(it) if not isinstance(it, dict) else list(it.keys())):
+            e2 = dict(env)
+            self.assign(g.target, x, e2)
+            if all(self.decide(self.eval(c, e2), c) for c in g.ifs):
+                out[self.eval(node.key, e2)] = self.eval(node.value, e2)
+        return out
+
     def e_Call(self, node, env):
-        fn = self.eval(node.func, env)
+        if isinstance(node.func, ast.Attribute):
+            base = self.eval(node.func.value, env)
+            if isinstance(base, BoundMethod) and isinstance(base.base, (Opaque, Sym)):
+                base = Opaque("%s.%s" % (base.base.name, base.attr), "obj")
+            if isinstance(base, ModVal):
+                fn = self.e_Attribute(node.func, env)
+            else:
+                fn = BoundMethod(base, node.func.attr)
+        else:
+            fn = self.eval(node.func, env)
         pos = []
         for a in node.args:
             if isinstance(a, ast.Starred):
@@ -909,6 +1013,11 @@ class Interp:
             return self.call_builtin(fn.name, pos, kw, node, env)
         if isinstance(fn, TypeVal):
             return self.call_type(fn.name, pos, kw, node)
+        if isinstance(fn, ModVal):
+            if fn.name in self.ext_summaries:
+                return self.ext_summaries[fn.name](self, pos, kw, node)
+            if fn.name in ("copy.copy", "copy.deepcopy") and pos:
+                return copy.deepcopy(pos[0]) if isinstance(pos[0], (dict, list)) else pos[0]
         if isinstance(fn, (Opaque, Sym, ModVal)):
             self.trace.events.append(("call-opaque", fn, pos, kw, node))
             return Opaque("%s()" % _nm(fn), "obj")
@@ -988,9 +1097,18 @@ class Interp:
                     return Sym("len(spliced)", "int", None)
                 return len(v)
             if isinstance(v, (Opaque, RepList, Sym)):
-                return Sym("len(%s)" % _nm(v), "int", None)
+                nm = "len(%s)" % _nm(v)
+                if isinstance(v, Opaque):
+                    self._len_source[nm] = v
+                return Sym(nm, "int", None)
             if isinstance(v, AStr):
-                return Sym("len(str)", "int", True)
+                n_ = Sym("len(str)", "int", True)
+                n_.attrs["min"] = sum(len(p_) if isinstance(p_, str) else 1 for p_ in v.parts)
+                return n_
+            if isinstance(v, Sym) and v.kind == "str":
+                n_ = Sym("len(%s)" % v.name, "int", True)
+                n_.attrs["min"] = 1
+                return n_
             raise Unsupported("len(%r)" % (v,))
         if name == "map":
             f, coll = pos[0], pos[1]
@@ -1015,6 +1133,15 @@ class Interp:
             return sorted(pos[0])
         if name == "enumerate" and isinstance(pos[0], (list, tuple)):
             return [(i, x) for i, x in enumerate(pos[0])]
+        if name == "zip" and all(isinstance(x, (list, tuple)) for x in pos):
+            return [tuple(t) for t in zip(*pos)]
+        if name == "getattr":
+            o, a = pos[0], pos[1]
+            if isinstance(o, (Opaque, Sym)) and isinstance(a, str):
+                if a in o.attrs:
+                    return o.attrs[a]
+                return Sym("%s.%s" % (o.name, a), "any", None)
+            raise Unsupported("getattr(%r, %r)" % (o, a))
         if name == "iter":
             return pos[0]
         if name == "print":
@@ -1105,6 +1232,14 @@ class Interp:
             if attr in ("startswith", "endswith"):
                 if s.is_concrete():
                     return getattr(s.literal(), attr)(pos[0])
+                pre = pos[0]
+                if isinstance(pre, str) and pre and s.parts:
+                    edge = s.parts[0] if attr == "startswith" else s.parts[-1]
+                    if isinstance(edge, str) and len(edge) >= len(pre):
+                        return getattr(edge, attr)(pre)
+                    ch = pre[0] if attr == "startswith" else pre[-1]
+                    if not isinstance(edge, str) and ch in self.hole_free_of:
+                        return False   # holes are free of the structural characters
                 return ACond(attr, base, pos[0], node)
             if attr == "encode" or attr == "decode":
                 return base
@@ -1168,6 +1303,30 @@ class Interp:
             if attr == "copy":
                 return dict(base)
             raise Unsupported("dict method %s" % attr)
+        if isinstance(base, RegexVal):
+            if attr in ("match", "search", "fullmatch") and pos:
+                import re as _re
+                subj = pos[0]
+                if isinstance(subj, str):
+                    return getattr(_re.compile(base.pattern), attr)(subj) is not None
+                if isinstance(subj, AStr):
+                    # decide on the literal prefix; holes stand for at least one non-structural character
+                    lit = ""
+                    for p_ in subj.parts:
+                        if isinstance(p_, str):
+                            lit += p_
+                        else:
+                            lit += "\x00"
+                    return getattr(_re.compile(base.pattern), attr)(lit) is not None
+                if isinstance(subj, Sym):
+                    return getattr(_re.compile(base.pattern), attr)("\x00") is not None
+            raise Unsupported("regex method %s" % attr)
+        if isinstance(base, ModVal):
+            full = "%s.%s" % (base.name, attr)
+            if full in self.ext_summaries:
+                return self.ext_summaries[full](self, pos, kw, node)
+            if full in ("copy.copy", "copy.deepcopy") and pos:
+                return copy.deepcopy(pos[0]) if isinstance(pos[0], (dict, list)) else pos[0]
         # ---- opaque receivers
         if isinstance(base, (Opaque, Sym)):
             if isinstance(base, Opaque) and base.name == "self" and base.kind == "obj":
@@ -1213,7 +1372,31 @@ class Interp:
         if not pos or pos[0] is None:
             if s.is_concrete():
                 return s.literal().split()
-            raise Unsupported("whitespace split of abstract string")
+            # holes are assumed free of whitespace: split the literal segments on runs of whitespace
+            pieces, cur = [], []
+            for p in s.parts:
+                if isinstance(p, str):
+                    i = 0
+                    buf = ""
+                    for ch in p:
+                        if ch.isspace():
+                            if buf:
+                                cur.append(buf)
+                                buf = ""
+                            if cur:
+                                pieces.append(AStr(cur).simplify())
+                                cur = []
+                        else:
+                            buf += ch
+                    if buf:
+                        cur.append(buf)
+                else:
+                    cur.append(p)
+            if cur:
+                pieces.append(AStr(cur).simplify())
+            if len(pos) > 1 and isinstance(pos[1], int):
+                raise Unsupported("whitespace split with maxsplit on an abstract string")
+            return pieces
         sep = pos[0]
         if not isinstance(sep, str):
             raise Unsupported("split on abstract separator")
@@ -1287,6 +1470,13 @@ class Interp:
                     out.append(p[i:j])
                     i = j
         return AStr(out).simplify()
+
+
+class RegexVal:
+    """A compiled regular expression known from the source (pattern text)."""
+
+    def __init__(self, pattern):
+        self.pattern = pattern
 
 
 class BoundMethod:
